@@ -79,7 +79,9 @@ func init() {
 }
 
 func init() {
-	properties["Rdebug"] = propDef{run: func(c *Ctx) *PropertyRun {
-		return &PropertyRun{Level: "other", Rules: []*RuleResult{c.rule("R20", ruleR20)}, Explain: "debug"}
+	properties["C07"] = propDef{run: func(c *Ctx) *PropertyRun {
+		return &PropertyRun{Level: "other", Trusted: trustedBase, Assume: commonAssumptions,
+			Rules: []*RuleResult{c.rule("R21", ruleR21)},
+			Explain: "partial"}
 	}}
 }
